@@ -1,6 +1,8 @@
 pub mod common;
 pub mod lap;
 pub mod c02;
+pub mod c05;
+pub mod c06;
 pub mod c07;
 pub mod c08;
 pub mod c11;
@@ -15,5 +17,5 @@ pub mod c20;
 use crate::runner::PropDef;
 
 pub fn all() -> Vec<PropDef> {
-    vec![c02::prop(), c07::prop(), c08::prop(), c11::prop(), c13::prop(), c14::prop(), c16::prop(), c17::prop(), c18::prop(), c19::prop(), c20::prop()]
+    vec![c02::prop(), c05::prop(), c06::prop(), c07::prop(), c08::prop(), c11::prop(), c13::prop(), c14::prop(), c16::prop(), c17::prop(), c18::prop(), c19::prop(), c20::prop()]
 }
